@@ -22,7 +22,8 @@ Definition connect_inv (c : connect) : Prop :=
       else c_props c = None /\ c_wprops c = None)
   /\ (c_wflag c = true -> istr_ok (c_wtopic c) = true /\ len (c_wmsg c) <= 65535)
   /\ (if c_uflag c then istr_ok (c_user c) = true else c_user c = [])
-  /\ (if c_pflag c then len (c_pass c) <= 65535 else c_pass c = []).
+  /\ (if c_pflag c then len (c_pass c) <= 65535 else c_pass c = [])
+  /\ (is_v3x (c_level c) && c_pflag c && negb (c_uflag c)) = false.
 
 Lemma will_inv_empty : will_inv props_empty.
 Proof.
@@ -73,6 +74,7 @@ Proof.
   destruct (negb (bit flags 2) && negb (N.land 3 (N.shiftr flags 3) =? 0)) eqn:C1; [discriminate|].
   destruct (2 <? N.land 3 (N.shiftr flags 3)) eqn:C0; [discriminate|].
   destruct (negb (bit flags 2) && bit flags 5) eqn:C2; [discriminate|].
+  destruct (is_v3x level && bit flags 6 && negb (bit flags 7)) eqn:Cpw; [discriminate|].
   destruct (read_uint16 b3) as [[ka b4]| | |] eqn:E4; cbn [remap bind] in H; try discriminate.
   apply read_uint16_inv in E4; [|assumption]. destruct E4 as [Hka Hb4].
   destruct (if level =? 5 then bind (props_unpack _ _) _ else _) as [[[pr wpr0] b5]| | |] eqn:E5; cbn [bind] in H; try discriminate.
@@ -113,6 +115,7 @@ Proof.
   apply opt_string_dec in E8; [|assumption]. destruct E8 as [Huser Hb8].
   destruct (if bit flags 6 then _ else _) as [[pass b9]| | |] eqn:E9; cbn [bind] in H; try discriminate.
   apply opt_binary_dec in E9; [|assumption]. destruct E9 as [Hpass Hb9].
+  destruct (negb (is_empty b9)); [discriminate|].
   apply ok_inj in H. subst body. eexists. split; [reflexivity|].
   unfold connect_inv. cbn [c_version c_level c_uflag c_pname c_pflag c_wretain c_wqos c_wflag c_wtopic c_wmsg c_clean
                           c_keepalive c_cid c_user c_pass c_props c_wprops].
@@ -133,7 +136,7 @@ Proof.
         split; [apply will_inv_empty|reflexivity].
     - destruct Hprops as [-> ->]. split; [reflexivity|].
       destruct (bit flags 2) eqn:Ewf; [apply (Hwillp eq_refl)|apply (Hwill0 eq_refl)]. }
-  split; [assumption|]. split; assumption.
+  split; [assumption|]. split; [assumption|]. split; [assumption|exact Cpw].
 Qed.
 
 (* ---------------------------------------------------------------- round trip *)
@@ -174,7 +177,7 @@ Lemma rt_connect : forall c ty fl bytes,
   pack_body (BConnect c) = Ok (ty, fl, bytes) -> len bytes < BIG ->
   ty = CONNECT /\ fl = 0 /\ parse_connect bytes = Ok (BConnect c).
 Proof.
-  intros c ty fl bytes (Hver & Hlev & Hpn & Hwq & Hnowill & Hka & Hcid & Hv3 & Hprops & Hwill & Huser & Hpass)
+  intros c ty fl bytes (Hver & Hlev & Hpn & Hwq & Hnowill & Hka & Hcid & Hv3 & Hprops & Hwill & Huser & Hpass & Hpw)
          Hpack Hlen.
   destruct c as [version level uflag pname pflag wretain wqos wflag wtopic wmsg clean keepalive cid user pass props wprops].
   cbn [c_version c_level c_uflag c_pname c_pflag c_wretain c_wqos c_wflag c_wtopic c_wmsg c_clean
@@ -209,7 +212,7 @@ Proof.
   { destruct wflag; [reflexivity|]. destruct (Hnowill eq_refl) as (-> & _). reflexivity. }
   assert (C2 : negb wflag && wretain = false).
   { destruct wflag; [reflexivity|]. destruct (Hnowill eq_refl) as (_ & -> & _). reflexivity. }
-  rewrite C1, C2. replace (2 <? wqos) with false by lia.
+  rewrite C1, C2. replace (2 <? wqos) with false by lia. rewrite Hpw.
   rewrite read_uint16_put16 by assumption. cbn [remap bind].
   (* CONNECT properties *)
   assert (Hp5 : (if level =? 5 then do '(p, b') <- props_unpack CONNECT ((if level =? 5 then props_pack props else []) ++
